@@ -2,7 +2,7 @@
 import numpy as np
 
 from vf import util, sysrun
-from vf.problems import Manufactured, Clocked, dtype_of, rng_for
+from vf.problems import Manufactured, Clocked, QuietBump, dtype_of, rng_for
 from vf.instrument import ReachMarkers
 
 LEVEL = "exploration"
@@ -12,8 +12,8 @@ RULE = ("one case = (method, dtype, span sign pattern, initial-dt class and sign
         "non-trivial = >=3 rows recorded by a call that returned; distinct by (method,dtype,span,dt class,history)")
 ASSUMPTIONS = ["dt is at least 64 ulp of the largest time in the span (otherwise time cannot advance in that precision)",
                "a run exceeding its logical step budget (20x the expected step count) is a violation of 'ends at the target' (bounded progress)"]
-FLOORS = {"quick": {"calls_checked": 150, "backward_calls": 40, "mixed_sign_calls": 30, "dt_gt_span_calls": 20, "buffer_growth_runs": 2, "reversal_calls": 5},
-          "thorough": {"calls_checked": 1500, "backward_calls": 400, "mixed_sign_calls": 300, "dt_gt_span_calls": 200, "buffer_growth_runs": 8, "reversal_calls": 50}}
+FLOORS = {"quick": {"calls_checked": 150, "backward_calls": 40, "mixed_sign_calls": 30, "dt_gt_span_calls": 20, "buffer_growth_runs": 2, "reversal_calls": 5, "closing_rejection_calls": 8},
+          "thorough": {"calls_checked": 1500, "backward_calls": 400, "mixed_sign_calls": 300, "dt_gt_span_calls": 200, "buffer_growth_runs": 8, "reversal_calls": 50, "closing_rejection_calls": 20}}
 SPANS = [(0.0, 2.0), (-5.0, 1.0), (-10.0, -5.0), (10.0, 5.0), (1.0, -5.0), (3.0, -3.0), (0.0, -2.0), (-2.0, 0.0),
          (1e6, 1e6 + 1.0), (-1e6, -1e6 - 1.0), (-0.5, 0.25), (7.0, 7.5)]
 QUICK_METHODS = ["RK45CKSolver", "DOPRI45", "RK4Solver", "EulerSolver", "HeunEulerSolver", "RK8713MSolver", "ABAs5o6HSolver",
@@ -51,6 +51,12 @@ def gen_cases(tier, seed):
                 cases.append(dict(kind="span", method=name, dtype=dtype, span=list(span), dt=dts * frac * L, dtfrac=frac,
                                   history=str(rng.choice(hist_all)), pseed=int(rng.integers(1 << 30)), dense=bool(rng.random() < 0.3),
                                   cost=(3 if info["explicit"] else 12) * (3 if frac < 1e-2 else 1)))
+    # calls whose closing (clipped) step is rejected and retried (constructed from a reference run on a quiet-then-steep problem)
+    for name in [n for n in names if M[n]["adaptive"] and M[n]["order"] <= 8]:
+        for d_ in (1, -1):
+            t0_ = float(rng.uniform(-3, 3))
+            cases.append(dict(kind="closing", method=name, dtype="float64", span=[t0_, t0_ + d_ * float(rng.uniform(1.0, 3.0))], dt=0.02, dtfrac=0.01, history="single",
+                              pseed=int(rng.integers(1 << 30)), dense=False, cost=10 if M[name]["explicit"] else 60))
     # runs that outgrow the 5000-row buffer, with and without events / dense output
     big = [("EulerSolver", False, False), ("RK4Solver", True, False), ("RK4Solver", False, True), ("SymplecticEulerSolver", False, False)]
     if tier == "thorough":
@@ -90,8 +96,27 @@ def run_case(spec):
     dt = dtype_of(spec["dtype"])
     t0, tf = spec["span"]
     d = 1 if tf > t0 else -1
-    base = Manufactured(2, spec["pseed"], direction=d)
-    prob = Clocked(base)
+    if spec.get("kind") == "closing":
+        qb = QuietBump(2, spec["pseed"], t0, tf)
+
+        class _P:     # quiet-then-steep quadrature + clock component
+            @staticmethod
+            def rhs(t, y, **kw):
+                out = np.empty_like(y)
+                out[:-1] = qb.rhs(t, y[:-1])
+                out[-1] = 1
+                return out
+
+            @staticmethod
+            def y0(t0_, dt_):
+                out = np.empty(3, dtype=dt_)
+                out[:-1] = qb.ystar(t0_).astype(dt_)
+                out[-1] = 0
+                return out
+        prob = _P
+    else:
+        base = Manufactured(2, spec["pseed"], direction=d)
+        prob = Clocked(base)
     y0 = prob.y0(t0, dt)
     y0_copy = y0.copy()
     rec = util.Rec(sig="%s|%s|%s|%s|%s|%s" % (spec["method"], spec["dtype"], spec["span"], spec["dtfrac"], spec["history"], spec.get("kind")))
@@ -102,6 +127,20 @@ def run_case(spec):
         rec.skipped = "dt below 64 ulp of the time scale"
         return rec.out()
     tol = dict(rtol=1e-6, atol=1e-8) if spec["dtype"] != "float32" else dict(rtol=1e-3, atol=1e-4)
+    if spec.get("kind") == "closing":
+        tgt = sysrun.closing_rejection_target(lambda: sysrun.make_system(prob.rhs, y0.copy(), t0, tf, spec["dt"], info["cls"], **tol))
+        # the reference run over the whole span is a call like any other: same oracle
+        ref_sys, ref_seg = sysrun.closing_rejection_target.last_reference
+        if ref_seg["raised"] is None:
+            rec.bump("calls_checked")
+            sysrun.segment_invariants(rec, ref_sys, ref_seg, tf, dict(feats, call="reference"), y0_copy=y0_copy, clock=True,
+                                      step_tol=0.0 if info["explicit"] else 0.5 * (tol["atol"] + tol["rtol"] * float(np.max(np.abs(ref_sys.y)))))
+        if tgt is None:
+            rec.skipped = "closing: no rejected step in the reference run"
+            rec.nontrivial = len(ref_sys) >= 3
+            return rec.out()
+        tf = tgt
+        rec.bump("closing_rejection_calls")
     system = sysrun.make_system(prob.rhs, y0, t0, tf, spec["dt"], info["cls"], dense=spec.get("dense", False), **tol)
     L = abs(tf - t0)
     expected = L / min(abs(spec["dt"]), L) if not info["adaptive"] else 2000
